@@ -14,7 +14,8 @@ LEAN_CONE = ['PncModel.Val2idx', 'PncProofs.Val2idxLemmas', 'PncProofs.C16']
 LEMMA_FILES = ['PncProofs/Val2idxLemmas.lean']
 REQUIRED_THEOREMS = ['nearest', 'nearest_desc', 'bounds_cell', 'bounds_cell_desc', 'exact_node', 'fpos_range',
                      'model_nearest', 'model_bounds']
-RULE = ('strictly monotonic coordinates, ascending and descending, 2..7 cells, three bounds representations '
+RULE = ('[t2t: the older front end time2t (nearest / bounds / bounds_close) and time2idx on files with a time coordinate in minutes, ascending and descending, regular and irregular, next to a second time-like coordinate with other units] ' +
+        'strictly monotonic coordinates, ascending and descending, 2..7 cells, three bounds representations '
         '(none, 1-D edges, n x 2), methods nearest/bounds/exact, clean mask/none, bounds ignore/warn/error, '
         'left/right None/nan/value; coordinate variables of type float64, float32 and integer; queries on a file object that answered a query for another coordinate of the same length before its values were overwritten in place; units whose reference time names an hour only (06Z, 06 UTC, 06, 6, T06Z); datetime queries (time2idx on an "hours since" coordinate: naive, UTC and +05:30 / -05:00 / +01:00 datetimes); queries include values 2^-30 beside every node/edge; stream "pow2": power-of-two spacings (np.interp exact) with queries at '
         'centres, edges, exact midpoints (ties), interior and outside; stream "margin": arbitrary dyadic '
@@ -26,9 +27,10 @@ MIN_NONTRIVIAL = {'quick': 50, 'thorough': 500}
 
 
 def _case(rng):
-    n = rng.randint(2, 7)
-    stream = 'pow2' if rng.random() < 0.6 else 'margin'
     method = rng.choice(['nearest', 'bounds', 'exact', 'bounds', 'nearest'])
+    # long coordinates too (numpy's membership test changes algorithm with the lengths): half of the exact lookups
+    n = rng.randint(2, 7) if rng.random() < (0.5 if method == 'exact' else 0.9) else rng.randint(12, 24)
+    stream = 'pow2' if rng.random() < 0.6 else 'margin'
     ekind = rng.choice(['none', 'none', 'e1', 'b2'])
 
     def steps(k):
@@ -135,14 +137,57 @@ def _case(rng):
     # length before its coordinate (and edges) were overwritten in place with the ones of this case
     refhour = rng.choice(['06Z', '06 UTC', '06', '6', '06:00', 'T06Z']) if (tz and rng.random() < 0.4) else None
     prior = rng.random() < 0.2
+    if vals and (rng.random() < 0.25 or method == 'exact'):
+        # the same value asked for several times in one call (for exact lookups always, a value off the nodes included)
+        vals = vals + [rng.choice(vals) for _ in range(rng.randint(1, 3))]
+        if method == 'exact':
+            off = c[0] + (c[1] - c[0]) * Fraction(3, 8)
+            vals = vals + [off, off]
     return dict(stream=stream, method=method, clean=rng.choice(['mask', 'mask', 'none']), refhour=refhour, prior=prior,
                 bmode=rng.choice(['ignore', 'warn', 'error']), left=left, right=right, cdtype=cdtype, tz=tz, tunit=tunit,
                 coords=[lib.show_rat(x) for x in c], edges=edges, vals=[lib.show_rat(x) for x in vals])
 
 
+def _t2t_case(rng):
+    """the older datetime front end time2t on a file with a 'time' coordinate (minutes since a reference): ascending and
+    descending axes, regular (nearest / bounds / bounds_close) or irregular (nearest) ones - also axes whose first two
+    times are whole hours while later ones are not -, a second coordinate 'valid_time' with other units next to it;
+    judged by the oracle (plain arithmetic on minutes)"""
+    n = rng.randint(2, 6)
+    ttype = rng.choice(['nearest', 'nearest', 'bounds', 'bounds_close'])
+    if ttype == 'nearest' and rng.random() < 0.6:
+        mins = [0, 60]
+        while len(mins) < n:
+            mins.append(mins[-1] + rng.choice([30, 40, 60, 70, 90, 120]))
+        mins = mins[:n]
+    else:
+        step = rng.choice([60, 30, 120, 1440, 20])
+        mins = [step * i for i in range(n)]
+    start = rng.choice([0, 600, 1380, 525600])
+    mins = [start + m for m in mins]
+    lo, hi = mins[0], mins[-1]
+    qs = []
+    for _ in range(rng.randint(1, 6)):
+        k = rng.random()
+        if k < 0.35:
+            qs.append(rng.choice(mins))
+        elif k < 0.7:
+            qs.append(rng.randrange(lo, hi + 1, 60) if rng.random() < 0.6 else rng.randint(lo, hi))
+        elif k < 0.8 and ttype != 'nearest':
+            st = mins[1] - mins[0]
+            qs.append(rng.choice([2 * hi + st, 2 * lo - st]) // 2 if (st % 2 == 0) else hi)       # the outer edges
+        else:
+            qs.append(rng.choice([lo - rng.randint(1, 200), hi + rng.randint(1, 200)]))
+    if rng.random() < 0.4:
+        qs = [q - q % 60 for q in qs]          # whole hours only
+    if rng.random() < 0.45:
+        mins = mins[::-1]
+    return dict(kind='t2t', ttype=ttype, mins=mins, qs=qs, other=rng.random() < 0.5)
+
+
 def gen(rng, tier):
     n = 500 if tier == 'quick' else 20000
-    return [_case(rng) for _ in range(n)]
+    return [_case(rng) for _ in range(n)] + [_t2t_case(rng) for _ in range(n // 8)]
 
 
 def _fill(s):
@@ -207,7 +252,76 @@ def _datetimes(case):
     return out
 
 
+def _impl_t2t(case):
+    import datetime as dt
+    import PseudoNetCDF as pnc
+    f = pnc.PseudoNetCDFFile()
+    n = len(case['mins'])
+    f.createDimension('time', n)
+    v = f.createVariable('time', 'd', ('time',))
+    v[:] = case['mins']
+    v.units = 'minutes since 2001-03-04 00:00:00+0000'
+    if case.get('other'):
+        f.createDimension('valid_time', 2)
+        o = f.createVariable('valid_time', 'd', ('valid_time',))
+        o[:] = [3, 4]
+        o.units = 'days since 1990-01-01 00:00:00+0000'
+    t0 = dt.datetime(2001, 3, 4, tzinfo=dt.timezone.utc)
+    q = [t0 + dt.timedelta(minutes=m) for m in case['qs']]
+    with lib.pnc_warnings():
+        try:
+            r = f.time2t(q, ttype=case['ttype'], index=True)
+            idx = f.time2idx(q, dim='time', method='nearest', bounds='ignore')
+            vidx = None
+            if case.get('other'):
+                # the second coordinate is looked up in its own units, whatever 'time' says
+                v0 = dt.datetime(1990, 1, 1, tzinfo=dt.timezone.utc)
+                vidx = f.time2idx([v0 + dt.timedelta(days=3), v0 + dt.timedelta(days=4), v0 + dt.timedelta(days=3, hours=2)],
+                                  dim='valid_time', method='nearest', bounds='ignore')
+                vidx = [int(x) for x in np.ma.filled(vidx, -1)]
+        except Exception as e:
+            return dict(err=type(e).__name__, msg=str(e)[:80])
+    m = np.ma.getmaskarray(r)
+    return dict(res=['m' if m[i] else str(int(np.ma.getdata(r)[i])) for i in range(len(q))],
+                idx=[int(x) for x in np.ma.filled(idx, -1)], vidx=vidx)
+
+
+def _oracle_t2t(case, res):
+    if 'err' in res:
+        return 'time2t raised %s %s' % (res['err'], res.get('msg'))
+    if res.get('vidx') is not None and res['vidx'] != [0, 1, 0]:
+        return "time2idx(dim='valid_time') on days [3, 4] since 1990 puts day 3, day 4 and day 3 + 2 h at %s (a variable 'time' with other units is in the file)" % res['vidx']
+    mins, tt = case['mins'], case['ttype']
+    n = len(mins)
+    step = Fraction(mins[1] - mins[0])
+    edges = [Fraction(m) - step / 2 for m in mins] + [Fraction(mins[-1]) + step / 2]
+    for q, got, gi in zip(case['qs'], res['res'], res['idx']):
+        near = sorted(range(n), key=lambda i: abs(mins[i] - q))
+        tie = n > 1 and abs(mins[near[0]] - q) == abs(mins[near[1]] - q)
+        if not tie and gi != near[0]:
+            return 'time2idx(nearest) puts minute %d at index %d, the closest time of %s is at %d' % (q, gi, mins, near[0])
+        if tt == 'nearest':
+            if not tie and got != str(near[0]):
+                return "time2t('nearest') puts minute %d at index %s, the closest time of %s is at %d" % (q, got, mins, near[0])
+            continue
+        lo, hi = min(edges), max(edges)
+        cells = [i for i in range(n) if min(edges[i], edges[i + 1]) <= q <= max(edges[i], edges[i + 1])]
+        if tt == 'bounds':
+            if not lo <= q <= hi:
+                if got != 'm':
+                    return "time2t('bounds') reports minute %d, outside the edges %s, in cell %s" % (q, [str(e) for e in edges], got)
+            elif got == 'm' or int(got) not in cells:
+                return "time2t('bounds') puts minute %d in cell %s; the cells containing it: %s (edges %s)" % (q, got, cells, [str(e) for e in edges])
+        else:
+            want = cells if cells else ([0] if abs(q - edges[0]) < abs(q - edges[-1]) else [n - 1])
+            if got == 'm' or int(got) not in want:
+                return "time2t('bounds_close') puts minute %d in cell %s, expected one of %s" % (q, got, want)
+    return None
+
+
 def impl(case):
+    if case.get('kind') == 't2t':
+        return _impl_t2t(case)
     f = _mkfile(case)
     vals = np.array([float(Fraction(x)) for x in case['vals']])
     with lib.pnc_warnings() as w:
@@ -227,11 +341,15 @@ def impl(case):
 
 
 def to_line(case, res):
+    if case.get('kind') == 't2t':
+        return 'c16 nearest none none none 0,1 none 0'        # no model question: judged by the oracle
     return 'c16 %s %s %s %s %s %s %s' % (case['method'], case['clean'], case['left'], case['right'],
                                        lib.show_list(case['coords']), case['edges'], lib.show_list(case['vals']))
 
 
 def agree(case, out, res):
+    if case.get('kind') == 't2t':
+        return None
     st, kv = lib.parse_kv(out)
     toks = out.split(' ')
     if st == 'err':
@@ -271,6 +389,8 @@ def _grid(case):
 
 def oracle(case, res):
     """brute-force statement of the property on the real result"""
+    if case.get('kind') == 't2t':
+        return _oracle_t2t(case, res)
     c, ed = _grid(case)
     n = len(c)
     vals = [Fraction(x) for x in case['vals']]
@@ -325,6 +445,8 @@ def classify(case, failure, model_out):
 
 
 def nontrivial(case, res):
+    if case.get('kind') == 't2t':
+        return 'res' in res and any(min(case['mins']) < q < max(case['mins']) and q not in case['mins'] for q in case['qs'])
     c, ed = _grid(case)
     dom = sorted(c)
     return any(dom[0] < Fraction(v) < dom[-1] and Fraction(v) not in c for v in case['vals'])
@@ -334,6 +456,9 @@ def distribution(recs):
     d = {}
     for r in recs:
         c = r['case']
+        if c.get('kind') == 't2t':
+            d['t2t=' + c['ttype']] = d.get('t2t=' + c['ttype'], 0) + 1
+            continue
         for k in ('stream', 'method', 'bmode', 'clean'):
             key = '%s=%s' % (k, c[k])
             d[key] = d.get(key, 0) + 1
